@@ -1,7 +1,187 @@
 package main
 
-// runFixtures analyses /verif/fixtures with the same engines and requires that
-// exactly the violating constructs are flagged. Filled in per engine.
+import (
+	"fmt"
+	"path/filepath"
+	"sort"
+	"strings"
+
+	"golang.org/x/tools/go/ssa"
+)
+
+// runFixtures analyses /verif/fixtures with the same engines the property checks use and requires that exactly
+// the examples named bad* are flagged (and the ok* ones are not). It runs before every check: an engine that no
+// longer recognises its own positive example gives no verdict. This is also the standing positive example for
+// rules whose expected instance count on the repository is zero (e.g. the pool-alias rule C15.5).
 func runFixtures(vdir string) (map[string]string, error) {
-	return map[string]string{}, nil
+	dir := filepath.Join(vdir, "fixtures")
+	p, err := LoadProgram(dir, []string{"./..."}, nil, "")
+	if err != nil {
+		return nil, fmt.Errorf("loading fixtures: %w", err)
+	}
+	fns := map[string]*ssa.Function{}
+	var all []*ssa.Function
+	for _, f := range p.RepoFuncs() {
+		if f.Blocks == nil {
+			continue
+		}
+		all = append(all, f)
+		if f.Parent() == nil && f.Signature.Recv() == nil {
+			fns[f.Name()] = f
+		}
+	}
+	if len(fns) < 20 {
+		return nil, fmt.Errorf("fixtures: only %d functions loaded", len(fns))
+	}
+	saved := allRepoFuncs
+	allRepoFuncs = all
+	defer func() { allRepoFuncs = saved }()
+
+	// ---- taint, once for the whole fixture package
+	rep := NewReport("fixtures", "quick", p.Roots[0].Fset, dir)
+	ctx := &Ctx{P: p, R: rep, Dir: dir}
+	ts := newTaint(ctx, taintCfg{
+		inScope: func(f *ssa.Function) bool { return true },
+		isSource: func(f *ssa.Function, in ssa.Instruction, cc *ssa.CallCommon) (taintKind, string) {
+			if calleeShort(cc) == "RemoteAddr" {
+				return tText, "RemoteAddr"
+			}
+			return 0, ""
+		},
+	})
+	for _, f := range all {
+		for _, prm := range f.Params {
+			if prm.Type().String() == "net.Conn" && strings.Contains(f.Name(), "Taint") {
+				ts.add(prm, tConn, nil, "fixture connection", prm.Pos())
+			}
+		}
+	}
+	ts.run()
+	taintHit := map[*ssa.Function]bool{}
+	for _, f := range all {
+		eachInstr(f, func(in ssa.Instruction) {
+			ci, ok := in.(ssa.CallInstruction)
+			if !ok || calleeShort(ci.Common()) != "sink" {
+				return
+			}
+			for _, a := range ci.Common().Args {
+				ops := []ssa.Value{a}
+				if el, ok := varargElems(a); ok {
+					ops = el
+				}
+				for _, o := range ops {
+					if o == nil {
+						continue
+					}
+					if k, _ := ts.textOf(o); k&tText != 0 {
+						taintHit[f] = true
+					}
+				}
+			}
+		})
+	}
+	taintFlag := func(f *ssa.Function) bool {
+		if taintHit[f] {
+			return true
+		}
+		for _, a := range f.AnonFuncs {
+			if taintHit[a] {
+				return true
+			}
+		}
+		hit := false
+		eachInstr(f, func(in ssa.Instruction) {
+			if ci, ok := in.(ssa.CallInstruction); ok {
+				if cal := ci.Common().StaticCallee(); cal != nil && taintHit[cal] && cal.Name() == "emit" {
+					hit = true
+				}
+			}
+		})
+		return hit
+	}
+
+	out := map[string]string{}
+	var errs []string
+	var names []string
+	for n := range fns {
+		names = append(names, n)
+	}
+	sort.Strings(names)
+	for _, n := range names {
+		f := fns[n]
+		var want, isCase bool
+		rest := ""
+		switch {
+		case strings.HasPrefix(n, "bad"):
+			want, isCase, rest = true, true, n[3:]
+		case strings.HasPrefix(n, "ok"):
+			want, isCase, rest = false, true, n[2:]
+		}
+		if !isCase {
+			continue
+		}
+		var got bool
+		engine := ""
+		switch {
+		case strings.HasPrefix(rest, "Guard"):
+			engine = "E1 guard dominance"
+			got = true
+			for _, ci := range callsIn(f, shortIs("mark")) {
+				got = !guarded(f, ci.(ssa.Instruction), Atom{"(" + f.Params[0].Name() + " < 10)", true})
+			}
+		case strings.HasPrefix(rest, "Lock"):
+			engine = "E3 lockset leak"
+			got = len(analyseLocks(f, lockSet{}).ExitLeak) > 0
+		case strings.HasPrefix(rest, "Pool"):
+			engine = "pool alias"
+			got = len(poolAliasViolations([]*ssa.Function{f})) > 0
+		case strings.HasPrefix(rest, "Bounds"), strings.HasPrefix(rest, "Alloc"):
+			engine = "bounds / allocation"
+			for _, bc := range boundCandidates(f) {
+				if !bc.ok {
+					got = true
+				}
+			}
+		case strings.HasPrefix(rest, "Taint"):
+			engine = "E4 taint"
+			got = taintFlag(f)
+		case strings.HasPrefix(rest, "Read"):
+			engine = "E11 read-then-error"
+			for _, ci := range callsIn(f, shortIs("Read")) {
+				if call, ok := ci.(*ssa.Call); ok {
+					_, bad, _, _ := readThenErr(f, call, nil)
+					got = got || bad
+				}
+			}
+		case strings.HasPrefix(rest, "Narrow"):
+			engine = "E10 narrowing"
+			for _, s := range narrowSites(f) {
+				if !s.OK {
+					got = true
+				}
+			}
+		case strings.HasPrefix(rest, "Draw"):
+			engine = "draw order"
+			steps, ordered := drawSeq(f, f.Params[0])
+			var d []string
+			for _, s := range steps {
+				d = append(d, s.desc)
+			}
+			got = !ordered || fmt.Sprint(d) != "[Read[16] -> scratch Read[4] -> scratch]"
+		default:
+			continue
+		}
+		status := "silent"
+		if got {
+			status = "flagged"
+		}
+		out[n] = engine + ": " + status
+		if got != want {
+			errs = append(errs, fmt.Sprintf("%s (%s): flagged=%v, expected %v", n, engine, got, want))
+		}
+	}
+	if len(errs) > 0 {
+		return out, fmt.Errorf("engine self-check on fixtures failed: %s", strings.Join(errs, "; "))
+	}
+	return out, nil
 }
